@@ -194,6 +194,15 @@ def gen_cfg(rseed, index=0):
         step_px = [rng.randint(8, 24) / 8.0, rng.randint(8, 24) / 8.0]
     else:
         step_px = [rng.choice([1.3, 1.7, 2.1, 2.6]), rng.choice([1.1, 1.9, 2.3])]
+    # exact TIE positions (x.5 object pixels, even and odd integer part; round-half-even vs half-up / truncation): every 8th
+    # configuration scans with a step of exactly 0.5 / 1.5 / 2.5 object pixels on the row axis (>= 4 rows, so ties with both
+    # parities of the integer part occur whatever the padding) and, in half of them, on the column axis too
+    ties = com != "constant" and i % 8 == 2
+    if ties:
+        samp = list(rng.choice([(1.0, 1.0), (0.5, 0.5), (0.5, 0.25), (2.0, 1.0)]))
+        step_px = [rng.choice([0.5, 1.5, 2.5]), rng.choice([0.5, 1.5, 2.5]) if rng.chance(0.5) else rng.randint(8, 24) / 8.0]
+        scan = [rng.randint(4, 5), rng.randint(3, 4)]
+        dyadic = True
     step = [float(np.float32(step_px[0] * samp[0])), float(np.float32(step_px[1] * samp[1]))]
     S = 1 + (i % 4)
     K = 1 + ((i // 2) % 3)
@@ -221,6 +230,11 @@ def gen_cfg(rseed, index=0):
         # the object box is not transposed / only floor-rotated with the scan: small paddings leave the box (known finding);
         # keep most of these configurations inside it so that they exercise the predicate
         cfg["pad"] = list(rng.choice([(6, 6), (8, 5), (8, 8)]))
+    if ties:
+        # plain raster (positions exact), used padding >= 2 (inside the object box: the predicate decides, not the known finding)
+        cfg["rotation_deg"], cfg["transpose"] = 0, False
+        cfg["pad"] = list(rng.choice([(2, 3), (4, 4), (3, 2), (8, 5), (5, 4)]))
+    cfg["ties"] = ties
     # order in which the mode powers are installed through the probe setter (no order in the quantifier)
     cfg["mode_order"] = rng.weighted([("descending", 1), ("ascending", 2), ("mixed", 2), ("near-equal", 1)]) if K > 1 else "single"
     return cfg
@@ -268,16 +282,13 @@ def gen_history(rng, n):
     return calls
 
 
-def history_stream(ctx, case, cfg, p, pd, data, truth, mask, mean_I, pix, applicable, clipped, key, rng):
+def history_stream(ctx, case, cfg, p, pd, data, truth, twin, mask, mean_I, pix, applicable, clipped, key, rng):
     """histories of real reconstruct() calls on ONE Ptychography object initialised at the ground truth.  At every call:
     loss at the truth zero to precision (against the correct targets of that call's loss type), predicted intensities = the
     simulated data, and every batch loss equal to that of a fresh object evaluated with the same options / batch order."""
     n = pd.num_gpts
     r0, r1 = cfg["roi"]
-    # fresh twin: its own dataset (the targets live in the dataset) and its own Ptychography, truth installed
-    pd_f = cp.make_dataset(cfg, data.reshape(cfg["scan"][0], cfg["scan"][1], r0, r1))
-    p_f = cp.make_ptycho(cfg, pd_f, truth[1])
-    cp.install_truth(p_f, cfg, *truth)
+    p_f = twin     # fresh twin: its own dataset (the targets live in the dataset) and its own Ptychography, truth installed
     for h in range(2):
         calls = gen_history(rng, n)
         if h == 1:
@@ -386,6 +397,139 @@ def entry_point_stream(ctx, case, cfg, p, pd, data, truth, mask, mean_I, pix, ap
                     ctx.pred_fail(key("entry-loss-at-truth") if clipped else f"entry-loss-at-truth:delegated={route['delegated']}:{cfg['com']}",
                                   f"{lt} loss at the ground truth is not zero when the problem is set up through the alternative entry points", {**rcase, "loss_type": lt, "batch_size": b},
                                   observed=f"|loss - eps residual|/scale={worst:.4g} (route {sig})", required=f"<= {tol:g}")
+
+
+def twin_compare(ctx, stream, hcase, recs, twin, pd, data, mask, mean_I, pix, lt, bsize, applicable, clipped, key, what):
+    """one real reconstruct() call on a history object against the UNTOUCHED twin (own dataset, same options / batch order):
+    every batch loss equal to the twin's, loss at the truth zero, prediction = simulated data.  Returns False when the
+    epoch did not visit every pattern once."""
+    n = pd.num_gpts
+    tol = TOL_L1 if "l1" in lt else TOL_L2
+    order = [i for r in recs for i in r["indices"]]
+    ctx.count()
+    if sorted(order) != list(range(n)):
+        ctx.disagree(f"{stream}-batches", hcase, list(range(n)), sorted(order), "one epoch must visit every pattern exactly once")
+        return False
+    fresh = cp.run_pipeline(twin, lt, bsize, order=order)
+    worst, worst_f, worst_pred = 0.0, 0.0, 0.0
+    for r, f in zip(recs, fresh):
+        bi = r["indices"]
+        sc = true_scale(pd, lt, bi, mask)
+        res = amplitude_residual(lt, data[bi], mask, len(bi), n, mean_I)
+        worst = max(worst, abs(r["loss"] - res) / sc if sc > 0 else float("inf"))
+        worst_f = max(worst_f, abs(r["loss"] - f["loss"]) / sc if sc > 0 else float("inf"))
+        worst_pred = max(worst_pred, maxabs(r["pred"] - data[bi]) / pix / max(1.0, maxabs(data[bi]) / pix))
+        ctx.count(3)
+    ctx.stat_max(f"{stream}.loss_vs_untouched_twin_rel", worst_f)
+    if not (worst_f <= 2 * TOL_L1):
+        ctx.pred_fail(f"{stream}-differs-from-untouched-twin" if not clipped else key(stream),
+                      f"{lt} loss after {what} differs from an untouched object given the same options", hcase,
+                      observed=f"|loss(history) - loss(twin)|/scale={worst_f:.4g}", required=f"<= {2 * TOL_L1:g}")
+    if applicable and not clipped:
+        ctx.stat_max(f"{stream}.loss_at_truth_rel[{lt}]", worst)
+        ctx.stat_max(f"{stream}.prediction_vs_reference", worst_pred)
+        if not (worst <= tol):
+            ctx.pred_fail(key(f"{stream}-loss-at-truth"), f"{lt} loss at the ground truth is not zero after {what}", hcase,
+                          observed=f"|loss - eps residual|/scale={worst:.4g}", required=f"<= {tol:g}")
+        if not (worst_pred <= TOL32):
+            ctx.pred_fail(key(f"{stream}-prediction"), f"predicted intensities differ from the simulated data after {what}", hcase,
+                          observed=f"max|pred - data|/scale={worst_pred:.4g}", required=f"<= {TOL32:g}")
+    return True
+
+
+def rejected_call_stream(ctx, case, cfg, pd, data, truth, twin, mask, mean_I, pix, applicable, clipped, key, rng):
+    """EXCEPTION SAFETY: on one Ptychography object (own dataset) at the ground truth, public calls with an invalid argument
+    (which the library rejects by raising) are interleaved with valid calls that rebuild derived state (reset_recon, preprocess,
+    to, compute_propagator_arrays) and with real reconstruct() calls.  A rejected call must change nothing: every reconstruct()
+    call of the history must give the loss of an untouched twin, zero at the truth."""
+    n = pd.num_gpts
+    r0, r1 = cfg["roi"]
+    S = cfg["slices"]
+    pd_q = cp.make_dataset(cfg, data.reshape(cfg["scan"][0], cfg["scan"][1], r0, r1))
+    q = cp.make_ptycho(cfg, pd_q, truth[1])
+    cp.install_truth(q, cfg, *truth)
+    menu = cp.rejected_menu(cfg, rng)
+    dz_items = [m for m in menu if m["name"].startswith("dz:")]
+    rounds = rng.randint(2, 3)
+    hist = []
+    for k in range(rounds):
+        # 1-3 rejected calls; the multislice thickness setter is drawn in every history of a multislice model
+        rej = [rng.choice(dz_items)] if (k == 0 and S >= 2) else []
+        rej += [rng.choice(menu) for _ in range(rng.randint(0 if rej else 1, 2))]
+        rej = rng.shuffle(rej)
+        aborted = False
+        for item in rej:
+            got = cp.apply_call(q, cfg, item)
+            ctx.count()
+            ctx.dist[f"rejected.{item['name']}:{'raised' if got else 'ACCEPTED'}"] += 1
+            hist.append({"rejected": item, "raised": got})
+            if got is None:
+                aborted = True     # the call was accepted on this tree: no longer a rejected call, nothing to compare with the twin
+                break
+        if aborted:
+            ctx.dist["rejected.history-abandoned(call accepted)"] += 1
+            return
+        rebuild = rng.weighted([("none", 3), ("reset_recon", 2), ("preprocess", 2), ("to_cpu", 1), ("compute_propagator_arrays", 1)])
+        cp.valid_rebuild(q, cfg, truth, rebuild)
+        lt = rng.choice(list(cp.LOSS_TYPES))
+        bsize = rng.choice([n, 1, rng.randint(2, max(2, n - 1))])
+        call = {"rebuild": rebuild, "loss_type": lt, "batch_size": bsize}
+        hist.append(call)
+        ctx.dist[f"rejected.then:{rebuild}"] += 1
+        recs = cp.reconstruct_call(q, cfg, truth, lt, bsize, False, rng.chance(0.8), k == 0 or rng.chance(0.5))
+        hcase = {**case, "rejected_history": [dict(h) for h in hist]}
+        names = ", ".join(h["rejected"]["name"] for h in hist if "rejected" in h)
+        twin_compare(ctx, "rejected-call-history", hcase, recs, twin, pd, data, mask, mean_I, pix, lt, bsize, applicable, clipped, key,
+                     f"rejected calls ({names}) followed by {rebuild} + reconstruct()")
+
+
+def repreprocess_stream(ctx, case, cfg, pd, data, truth, twin, mask, mean_I, pix, applicable, clipped, key, rng):
+    """RE-PREPROCESSING HISTORIES on ONE dataset object: preprocess(settings A) -> [a rejected preprocess] -> preprocess(the
+    configuration's settings) -> Ptychography.from_models / preprocess(padding A') -> preprocess(the configuration's padding) ->
+    real reconstruct() calls for the loss types in a random order (amplitude first in half of the cases).  Everything must be what
+    a dataset preprocessed ONCE with the configuration's settings gives (the untouched twin)."""
+    n = pd.num_gpts
+    r0, r1 = cfg["roi"]
+    gr, gc = cfg["scan"]
+    fits = [f for f in ("plane", "constant", "none", "no_shift") if f != cfg["com"]]
+    A = {"com_fit_function": rng.choice(fits), "bilinear": rng.chance(0.3), "vectorized": rng.chance(0.7),
+         "force_com_rotation": rng.choice([cfg.get("rotation_deg", 0), 0, 90, 17]), "force_com_transpose": rng.chance(0.3),
+         "obj_padding_px": tuple(rng.choice([(0, 0), (4, 4), (2, 6)]))}
+    padA = list(rng.choice([(0, 0), (4, 4), (5, 2), (8, 8)]))
+    rejected_between = rng.chance(0.4)
+    ptycho_repre = rng.chance(0.6)
+    plan = {"first": {k: (list(v) if isinstance(v, tuple) else v) for k, v in A.items()}, "rejected_between": rejected_between,
+            "ptycho_first_padding": padA if ptycho_repre else None}
+    ctx.dist[f"repreprocess.first_fit={A['com_fit_function']},bilinear={A['bilinear']}"] += 1
+    ctx.dist[f"repreprocess.rejected_between={rejected_between},ptycho_level={ptycho_repre}"] += 1
+    d = cp.make_raw_dataset(cfg, data.reshape(gr, gc, r0, r1))
+    cp.dataset_preprocess(d, cfg, **A)
+    if rejected_between:
+        try:
+            cp.dataset_preprocess(d, cfg, com_fit_function="bogus")
+            ctx.dist["repreprocess.bogus-fit-accepted"] += 1
+        except Exception:   # noqa: BLE001
+            pass
+    cp.dataset_preprocess(d, cfg)
+    import warnings
+    with warnings.catch_warnings():
+        warnings.simplefilter("ignore")
+        if ptycho_repre:
+            cfgA = {**cfg, "pad": padA}
+            q = cp.make_ptycho(cfgA, d, truth[1])
+            q.preprocess(obj_padding_px=tuple(cfg["pad"]), plot_rotation=False, plot_com=False)
+        else:
+            q = cp.make_ptycho(cfg, d, truth[1])
+    cp.install_truth(q, cfg, *truth)
+    lts = rng.shuffle(list(cp.LOSS_TYPES))
+    if rng.chance(0.5):
+        lts.sort(key=lambda t: "amplitude" not in t)     # amplitude losses first: the targets preprocess() itself installed are used
+    for k, lt in enumerate(lts):
+        bsize = rng.choice([n, 1, rng.randint(2, max(2, n - 1))])
+        recs = cp.reconstruct_call(q, cfg, truth, lt, bsize, False, rng.chance(0.8), k == 0 or rng.chance(0.5))
+        hcase = {**case, "repreprocess": plan, "loss_order": lts, "call": k}
+        twin_compare(ctx, "repreprocess-history", hcase, recs, twin, pd, data, mask, mean_I, pix, lt, bsize, applicable, clipped, key,
+                     f"preprocess({A['com_fit_function']}, ...) -> preprocess({cfg['com']}, ...) on one dataset object")
 
 
 def amplitude_residual(lt, I, mask, b, n, mean_I):
@@ -511,8 +655,17 @@ def _pipeline_case(ctx, drv, case, light=False):
     mfrac = np.array([[float(Fraction(m["frac"][0])), float(Fraction(m["frac"][1]))] for m in mi])
     if not np.array_equal(mfrac, lib_frac):
         ctx.disagree("fractional-positions", case, mfrac.tolist(), lib_frac.tolist(), "pos - round(pos) (exact)")
-    ties = int(np.sum(np.abs(np.abs(pos - np.floor(pos)) - 0.5) < 1e-9))
+    tie_mask = np.abs(pos - np.floor(pos)) == 0.5
+    ties = int(np.sum(tie_mask))
     ctx.dist[f"positions.with_half_ties={'yes' if ties else 'no'}"] += 1
+    if ties:
+        par = set((np.floor(pos[tie_mask]).astype(int) % 2).tolist())
+        ctx.dist[f"positions.tie_integer_part={'even+odd' if par == {0, 1} else ('even' if par == {0} else 'odd')}"] += 1
+    ctx.dist[f"positions.integer={'all' if np.all(pos == np.floor(pos)) else ('some' if np.any(pos == np.floor(pos)) else 'none')}"] += 1
+    if cfg.get("ties"):
+        ctx.count()
+        if par != {0, 1} if ties else True:
+            ctx.disagree("generator-ties", case, "exact x.5 positions with even and odd integer part", pos[:6].tolist(), "the tie configuration did not produce exact tie positions (harness generator)")
 
     # ---- 3. ground truth and the reference simulation (Spec.simulate at Float in the driver)
     phi = cp.object_phase(cfg, rng, H, W, pos, symmetric)                   # (S,H,W) float64, k/64
@@ -648,7 +801,17 @@ def _pipeline_case(ctx, drv, case, light=False):
     # alternative public entry points of every step must give the same problem
     entry_point_stream(ctx, case, cfg, p, pd, data, (phi, probe_lib), mask, mean_I, pix, applicable, clipped, key, rng, full["pred"])
     # histories of real reconstruct() calls on this one object (state left behind by earlier calls must not matter)
-    history_stream(ctx, case, cfg, p, pd, data, (phi, probe_lib), mask, mean_I, pix, applicable, clipped, key, rng)
+    # the untouched twin of the history streams: its own dataset and Ptychography object, ground truth installed, never given a
+    # rejected call, preprocessed exactly once
+    pd_f = cp.make_dataset(cfg, data.reshape(gr, gc, r0, r1))
+    twin = cp.make_ptycho(cfg, pd_f, probe_lib)
+    cp.install_truth(twin, cfg, phi, probe_lib)
+    history_stream(ctx, case, cfg, p, pd, data, (phi, probe_lib), twin, mask, mean_I, pix, applicable, clipped, key, rng)
+    rng2 = Rng(cfg["truth_seed"] ^ 0x5EED5)      # own stream: the choices above stay what they were
+    # exception safety: rejected public calls inside a history must change nothing
+    rejected_call_stream(ctx, case, cfg, pd, data, (phi, probe_lib), twin, mask, mean_I, pix, applicable, clipped, key, rng2)
+    # re-preprocessing histories on one dataset object must equal a dataset preprocessed once
+    repreprocess_stream(ctx, case, cfg, pd, data, (phi, probe_lib), twin, mask, mean_I, pix, applicable, clipped, key, rng2)
     # perturbations: 3 of the object, 2 of the probe
     prng = np.random.default_rng(cfg["truth_seed"] % (2 ** 32))
     perts = []
